@@ -438,7 +438,15 @@ def op_model_direct(which, order):
         model = cls(experiment_space=es, n_embedding_dimensions=2)
         model.add_observations(screen.subset_observed())
         g = np.random.default_rng(seed)
-        if order == "rng-then-reset":
+        if order == "other-rng-first":
+            # history: the model is first handed ANOTHER generator (whose state follows the process-global state the
+            # schedule set up - read, not drawn from), nothing is drawn, then it is handed g: from then on g is "the given
+            # generator" and the result may depend on nothing else
+            other = np.random.default_rng([int(x) for x in np.random.get_state()[1][:4]])
+            model.set_rng(other)
+            model.set_rng(g)
+            model.reset_model()
+        elif order == "rng-then-reset":
             model.set_rng(g)
             model.reset_model()
         else:
@@ -591,7 +599,7 @@ def operations(tier):
     ops["sample:SparseDrugCombo:burnin0"] = op_sample_model("combo", burnin=0)
     ops["sample:SparseDrugComboInteraction:burnin0"] = op_sample_model("interaction", burnin=0)
     for which in ("combo", "interaction"):
-        for order in ("rng-then-reset", "reset-then-rng"):
+        for order in ("rng-then-reset", "reset-then-rng", "other-rng-first"):
             ops[f"model:{which}:{order}"] = op_model_direct(which, order)
     ops["sample:variational-stub"] = op_sample_vi_stub
     ops["cli:prepare_retrospective_simulation"] = cli_prepare(False)
